@@ -330,3 +330,30 @@ func VerifC11ExprStrings() {
 	}
 	verifCover("C11/exprs/parsed")
 }
+
+// ---- (6) operators that carry a number in their spelling ----
+
+var c11ParamNames = []string{"flatten", "to_yaml", "toyaml", "to_xml", "toxml", "to_json", "tojson", "parent", "to_props", "sort_by", "has", "pick", "omit", "split", "join"}
+var c11ParamFill = []string{"", "0", "1", "12", "007", "99999999999999999999", "-1", " 0", "0 ", " 0 ", "\t2", "2\t", "1 2", "a", "1,2", "0x2", "1.5", "\"1\"", " "}
+
+// VerifC11ParamOps: NAME(ARG) for every operator whose lexer rule reads a number out of its own spelling — and a few
+// that take an expression — with digits, blanks, signs, overflowing and non-numeric text between the parentheses:
+// the lexer rule (real pattern, engine model), the rule's token action (extractNumberParameter and friends), the
+// parser and the evaluator answer or refuse, they do not panic.
+func VerifC11ParamOps() {
+	name := c11ParamNames[verifChoice("name", len(c11ParamNames))]
+	fill := c11ParamFill[verifChoice("arg", len(c11ParamFill))]
+	prefix := []string{"", ".a | ", ".[] | "}[verifChoice("prefix", 3)]
+	text := prefix + name + "(" + fill + ")"
+	InitExpressionParser()
+	tree, err := ExpressionParser.ParseExpression(text)
+	if err != nil {
+		verifCover("C11/params/rejected")
+		return
+	}
+	if tree != nil {
+		_, _ = vEval(tree, c11Doc(9, "1"))
+		_, _ = vEval(tree, c11Doc(5, "1"))
+	}
+	verifCover("C11/params/parsed")
+}
